@@ -531,6 +531,12 @@ def part_c(ctx, tmp):
                     m2 = taurex_hdf5_to_model(path)
                     new = [(nm[-1], dict(a)) for nm, a in rec.calls]
                     m2.build()
+                    # the order of the contributions is not a stored quantity (a rebuilt model re-adds them in name order)
+                    # and the licensed tau > 10 cut-off of C01 depends on it (differences up to exp(-10) per layer,
+                    # 6.8e-7 of the spectrum observed): the rebuilt model is evaluated with the original's order
+                    want_ = [type(c).__name__ for c in model.contribution_list]
+                    if sorted(want_) == sorted(type(c).__name__ for c in m2.contribution_list):
+                        m2.contribution_list.sort(key=lambda c: want_.index(type(c).__name__))
                     r2 = m2.model()
             except Exception as e:
                 import traceback
@@ -562,8 +568,8 @@ def part_c(ctx, tmp):
                         vb = b[k] if k in b else defaults.get(k)
                         if not same_param(va, vb):
                             bad.append('%s.%s: %r -> %r' % (nm, k, va, vb))
-            # contributions are re-added in name order: a different summation order (observed up to 1e-9); a lost
-            # parameter is caught exactly by the constructor comparison above
+            # (same order of contributions, see above: what remains is rounding; a lost parameter is caught exactly by the
+            # constructor comparison above)
             if not np.allclose(r1[1], r2[1], rtol=1e-7, atol=0, equal_nan=True):
                 bad.append('spectrum differs by up to %.3g (relative)' % float(np.nanmax(np.abs(r1[1] - r2[1]) / np.abs(r1[1]))))
             ctx.case(('C', mt, tk, gk, tuple(contribs), float(r1[1][0])), nontrivial=True,
